@@ -293,6 +293,47 @@ theorem orderHolds_desc (hs : List (Hold ℝ)) :
   · exact le_of_lt h
   · exact le_of_eq h.symm
 
+/-! ### the constructor establishes `WF` -/
+
+theorem desc_of_pairwise {Ts : ℝ} {l : List (Hold ℝ)}
+    (hp : l.Pairwise (fun a b => b.temp ≤ a.temp)) (hle : ∀ h ∈ l, h.temp ≤ Ts) : Desc Ts l := by
+  induction l generalizing Ts with
+  | nil => trivial
+  | cons a t ih =>
+    rw [List.pairwise_cons] at hp
+    exact ⟨hle a (by simp), ih hp.2 (fun h hh => hp.1 h hh)⟩
+
+theorem lastTemp_mem (Ts : ℝ) (l : List (Hold ℝ)) :
+    lastTemp Ts l = Ts ∨ ∃ h ∈ l, lastTemp Ts l = h.temp := by
+  induction l generalizing Ts with
+  | nil => left; rfl
+  | cons a t ih =>
+    right
+    rcases ih a.temp with h | ⟨x, hx, hxe⟩
+    · exact ⟨a, by simp, by simpa [lastTemp] using h⟩
+    · exact ⟨x, by simp [hx], by simpa [lastTemp] using hxe⟩
+
+/-- For user-level inputs in the property's range (positive rate and step, end ≤ hold
+temperatures ≤ start, non-negative durations and total time) the constructor succeeds, keeps
+exactly the listed holds (as a multiset) and yields a program satisfying `WF` — so every
+theorem above applies to every `OperatingConditions` object built from such inputs. -/
+theorem mkOpCond_wf (t_tot start stop rate dt : ℝ) (hs : List (Hold ℝ)) (hdt : 0 < dt) (hr : 0 < rate)
+    (ht : 0 ≤ t_tot) (hss : stop ≤ start)
+    (hrange : ∀ h ∈ hs, stop ≤ h.temp ∧ h.temp ≤ start ∧ 0 ≤ h.duration) :
+    ∃ oc, mkOpCond t_tot start stop rate (some hs) true = .ok oc ∧ WF oc dt ∧ oc.holds.Perm hs := by
+  have hne : rate ≠ 0 := ne_of_gt hr
+  refine ⟨⟨t_tot, start, stop, rate, orderHolds hs⟩, ?_, ?_, ?_⟩
+  · simp [mkOpCond, hne]
+  · have hperm : (orderHolds hs).Perm hs := List.mergeSort_perm hs holdGe
+    have hmem : ∀ h ∈ orderHolds hs, h ∈ hs := fun h hh => hperm.mem_iff.mp hh
+    refine ⟨hdt, hr, ht, ?_, ?_, ?_⟩
+    · exact desc_of_pairwise (orderHolds_desc hs) (fun h hh => (hrange h (hmem h hh)).2.1)
+    · rcases lastTemp_mem start (orderHolds hs) with h | ⟨x, hx, hxe⟩
+      · simp only; rw [h]; exact hss
+      · simp only; rw [hxe]; exact (hrange x (hmem x hx)).1
+    · intro x hx; exact (hrange x (hmem x hx)).2.2
+  · exact List.mergeSort_perm hs holdGe
+
 /-! ### the upstream (unpadded) profile is short: witness of finding F1 -/
 
 /-- `start 0, end -1/2, rate 1/2, dt 3, t_tot 1/2`: the concatenation truncated to `n`
